@@ -69,12 +69,15 @@ enum Target {
     One(Imp),
     Diff,
     Burst(Imp),
-    /// the client downlink after its write handle has been dropped (read-only mode of the task)
-    ReadOnly,
+    /// the downlink after its write handle has been dropped (read-only mode of the task)
+    ReadOnly(Imp),
 }
 
-fn run_read_only(kind: Kind, cfg: Cfg, seq: &[Sym], w: &Wire) -> RunOut {
-    match catch_unwind(AssertUnwindSafe(|| client::run_read_only(kind, cfg, seq, w))) {
+fn run_read_only(imp: Imp, kind: Kind, cfg: Cfg, seq: &[Sym], w: &Wire) -> RunOut {
+    match catch_unwind(AssertUnwindSafe(|| match imp {
+        Imp::Client => client::run_read_only(kind, cfg, seq, w),
+        Imp::Hosted => hosted::run_read_only(kind, cfg, seq, w),
+    })) {
         Ok(o) => o,
         Err(p) => RunOut { panic: Some(panic_text(p)), ..Default::default() },
     }
@@ -87,7 +90,8 @@ impl Target {
             Target::Diff => "client-vs-hosted",
             Target::Burst(Imp::Client) => "client-burst",
             Target::Burst(Imp::Hosted) => "hosted-burst",
-            Target::ReadOnly => "client-readonly",
+            Target::ReadOnly(Imp::Client) => "client-readonly",
+            Target::ReadOnly(Imp::Hosted) => "hosted-readonly",
         }
     }
     fn parse(s: &str) -> Option<Target> {
@@ -95,7 +99,8 @@ impl Target {
             "client-vs-hosted" => Some(Target::Diff),
             "client-burst" => Some(Target::Burst(Imp::Client)),
             "hosted-burst" => Some(Target::Burst(Imp::Hosted)),
-            "client-readonly" => Some(Target::ReadOnly),
+            "client-readonly" => Some(Target::ReadOnly(Imp::Client)),
+            "hosted-readonly" => Some(Target::ReadOnly(Imp::Hosted)),
             other => Imp::parse(other).map(Target::One),
         }
     }
@@ -127,13 +132,13 @@ fn fails(target: Target, mode: Mode, cfg: Cfg, seq: &[Sym], w: &Wire, runs: &mut
             }
             differ(&a, &b)
         }
-        Target::ReadOnly => {
+        Target::ReadOnly(imp) => {
             if seq.iter().any(|s| s.is_local()) {
                 return None;
             }
             *runs += 1;
-            let out = run_read_only(mode.kind, cfg, seq, w);
-            check(mode.kind, cfg, Imp::Client, seq, &out, mode.tolerant).mismatch
+            let out = run_read_only(imp, mode.kind, cfg, seq, w);
+            check(mode.kind, cfg, imp, seq, &out, mode.tolerant).mismatch
         }
         Target::Burst(imp) => {
             *runs += 2;
@@ -711,12 +716,17 @@ fn bfs_leg(sh: &Shared, leg: Bfs) {
 
 /// Every legal notification sequence up to `depth` on the client downlink whose write handle was
 /// dropped before the first notification (the task's read-only mode), against the reference fold.
-fn readonly_leg(sh: &Shared, kind: Kind, depth: usize, cap_s: f64) {
+fn readonly_leg(sh: &Shared, imp: Imp, kind: Kind, depth: usize, cap_s: f64) {
     if vcommon::sched::is_worker() {
         return;
     }
     let t0 = Instant::now();
-    let name = if kind == Kind::Value { "readonly-client-value" } else { "readonly-client-map" };
+    let name = match (imp, kind) {
+        (Imp::Client, Kind::Value) => "readonly-client-value",
+        (Imp::Client, Kind::Map) => "readonly-client-map",
+        (Imp::Hosted, Kind::Value) => "readonly-hosted-value",
+        (Imp::Hosted, Kind::Map) => "readonly-hosted-map",
+    };
     let alpha = alphabet(kind, false);
     let mode = Mode { kind, tolerant: false, backing: Backing::Hash };
     // work items: (configuration, first two symbols)
@@ -769,15 +779,15 @@ fn readonly_leg(sh: &Shared, kind: Kind, depth: usize, cap_s: f64) {
             st.states += 1;
             st.evals += 1;
             st.transitions += seq.len() as u64;
-            let out = run_read_only(kind, cfg, &seq, &sh.wire);
-            let c = check(kind, cfg, Imp::Client, &seq, &out, false);
+            let out = run_read_only(imp, kind, cfg, &seq, &sh.wire);
+            let c = check(kind, cfg, imp, &seq, &out, false);
             st.compared += c.compared_states as u64;
             if presync_observed(&seq) {
                 st.nontrivial += 1;
             }
             if let Some(m) = c.mismatch {
                 st.failing_prefixes += 1;
-                let f = minimise(Target::ReadOnly, mode, *ci, &seq, &m, name, &sh.wire, &mut st.minimise_runs);
+                let f = minimise(Target::ReadOnly(imp), mode, *ci, &seq, &m, name, &sh.wire, &mut st.minimise_runs);
                 sh.record(name, f);
             }
         }
@@ -796,7 +806,7 @@ fn readonly_leg(sh: &Shared, kind: Kind, depth: usize, cap_s: f64) {
         transitions: total.transitions,
         evaluations: total.evals,
         distinct_nontrivial: total.nontrivial,
-        rule: "every maximal legal notification sequence up to the depth bound (every prefix is checked step by step within it), in all four configurations, on the client task after its write handle was dropped; every callback compared with the reference fold".into(),
+        rule: "every maximal legal notification sequence up to the depth bound (every prefix is checked step by step within it), in all four configurations, on the downlink after its write handle was dropped; every callback compared with the reference fold".into(),
         samples: vec![],
         exhaustive: all && !capped.load(Ordering::Relaxed),
         bounds: json!({"depth": depth, "alphabet": alpha.len(), "configurations": CFGS.len(), "wall_cap_s": cap_s}),
@@ -953,8 +963,10 @@ fn main() {
     bfs_leg(&sh, Bfs { name: "redundant-client-value", mode: m(Kind::Value, true, hash), local: false, depth: if q { 7 } else { 9 }, mask: CLIENT_OK, cap_s: 100.0 });
     bfs_leg(&sh, Bfs { name: "redundant-client-map", mode: m(Kind::Map, true, hash), local: false, depth: if q { 5 } else { 6 }, mask: CLIENT_OK, cap_s: if q { 20.0 } else { 300.0 } });
     bfs_leg(&sh, Bfs { name: "hosted-map-btree-backing", mode: m(Kind::Map, false, Backing::BTree), local: false, depth: if q { 5 } else { 6 }, mask: HOSTED_OK, cap_s: if q { 20.0 } else { 300.0 } });
-    readonly_leg(&sh, Kind::Value, if q { 8 } else { 10 }, if q { 30.0 } else { 300.0 });
-    readonly_leg(&sh, Kind::Map, if q { 5 } else { 6 }, if q { 30.0 } else { 300.0 });
+    for imp in [Imp::Client, Imp::Hosted] {
+        readonly_leg(&sh, imp, Kind::Value, if q { 8 } else { 10 }, if q { 30.0 } else { 300.0 });
+        readonly_leg(&sh, imp, Kind::Map, if q { 5 } else { 6 }, if q { 30.0 } else { 300.0 });
+    }
     robust_leg(&sh, Kind::Value, if q { 6 } else { 8 }, if q { 30.0 } else { 300.0 });
     robust_leg(&sh, Kind::Map, if q { 4 } else { 5 }, if q { 30.0 } else { 400.0 });
 
